@@ -1,4 +1,6 @@
 import CookModel.Lemmas.GroupConserve
+import CookModel.Lemmas.GroupAudit
+import CookModel.Lemmas.ParsedScaledRefs
 import CookModel.Props.C09
 /-
   C10  Grouping and listing ingredients conserves quantities.
@@ -361,6 +363,204 @@ theorem C10_cookware_conserves (vs : List (Value Rat)) :
   exact ⟨g, hg, h _ (vEnd_additive false), h _ (vEnd_additive true),
     valueTexts_perm (fun t => h _ (vText_additive t))⟩
 
+/-! ## audit additions (notes/audit-C10.md): every order of merging, every order of recipes,
+    several recipes, cookware with its references -/
+
+/-- `merge` in either direction gives the same totals and texts: `a.merge(b)` and `b.merge(a)` hold the
+    same, whatever the iteration orders of the hash maps involved (the one `merge` iterates with, the
+    one the result is read with). -/
+theorem C10_merge_commutes {c : Converter Rat} (hc : c.Sound) (ord ord' o1 o2 : MapOrder Rat)
+    (hord : ord.IsPerm) (hord' : ord'.IsPerm) (ho1 : o1.IsPerm) (ho2 : o2.IsPerm)
+    (g h : GroupedQuantity Rat) (cls : QClass) (hlin : LinearClass c cls) :
+    Holds c cls ((merge ord c g h).iter o1) ((merge ord' c h g).iter o2) := by
+  apply holds_of_weights hc hlin
+  intro w hw
+  rw [gsum_iter w o1 ho1, gsum_iter w o2 ho2, merge_gsum hw.additive ord hord,
+    merge_gsum hw.additive ord' hord']
+  grind
+
+/-- "all orders of merging": any number of groups merged into `g` one after the other (`mergeAll`)
+    hold what `g` and all of them held, and the result does not depend on the order in which they are
+    merged nor on any iteration order. -/
+theorem C10_merge_order_irrelevant {c : Converter Rat} (hc : c.Sound) (ord ord' o1 o2 : MapOrder Rat)
+    (hord : ord.IsPerm) (hord' : ord'.IsPerm) (ho1 : o1.IsPerm) (ho2 : o2.IsPerm)
+    (g : GroupedQuantity Rat) (hs hs' : List (GroupedQuantity Rat)) (hp : hs.Perm hs')
+    (cls : QClass) (hlin : LinearClass c cls) :
+    Holds c cls ((mergeAll ord c g hs).iter o1) (g.iter o1 ++ hs.flatMap (fun h => h.iter o1)) ∧
+    Holds c cls ((mergeAll ord c g hs).iter o1) ((mergeAll ord' c g hs').iter o2) := by
+  constructor
+  · apply holds_of_weights hc hlin
+    intro w hw
+    rw [gsum_iter w o1 ho1, audit_mergeAll_gsum hw.additive ord hord, sumBy_append, gsum_iter w o1 ho1,
+      sumBy_flatMap]
+    congr 1
+    exact sumBy_congr _ (fun h _ => (gsum_iter w o1 ho1 h).symm)
+  · apply holds_of_weights hc hlin
+    intro w hw
+    rw [gsum_iter w o1 ho1, gsum_iter w o2 ho2, audit_mergeAll_gsum hw.additive ord hord,
+      audit_mergeAll_gsum hw.additive ord' hord', sumBy_perm _ hp]
+
+/-- "all sequences of recipes", any order: the recipes added in two different orders (and with
+    different hash orders) give lists whose entries hold the same, name by name. -/
+theorem C10_list_order_irrelevant {c : Converter Rat} (hc : c.Sound) (ord ord' : MapOrder Rat)
+    (hord : ord.IsPerm) (hord' : ord'.IsPerm) (rs rs' : List (ScaledRecipe Rat)) (hp : rs.Perm rs')
+    (hr : ∀ r ∈ rs, RefsInRange r.ingredients) (m : IngredientList Rat)
+    (cls : QClass) (hlin : LinearClass c cls) :
+    ∃ m1 m2, addRecipes ord c m rs = some m1 ∧ addRecipes ord' c m rs' = some m2 ∧
+      ∀ name, Holds c cls (entryQuantities ord m1 name) (entryQuantities ord' m2 name) := by
+  obtain ⟨m1, h1⟩ := addRecipes_total (c := c) ord rs m hr
+  obtain ⟨m2, h2⟩ := addRecipes_total (c := c) ord' rs' m (fun r h => hr r (hp.mem_iff.mpr h))
+  refine ⟨m1, m2, h1, h2, fun name => holds_of_weights hc hlin ?_⟩
+  intro w hw
+  rw [sumBy_entryQuantities w ord hord, sumBy_entryQuantities w ord' hord',
+    audit_addRecipes_perm_entryW hw.additive hw.fitInvariant ord ord' hord hord' rs rs' hp m m1 m2 h1 h2]
+
+/-- `C10_listed_names` for a sequence of recipes: after any number of `add_recipe` calls the names of
+    the list are the names it had plus the display names of the listed definitions of the recipes —
+    a hidden ingredient, a reference, an intermediate reference of ANY of the recipes never makes an
+    entry. -/
+theorem C10_listed_names_all {c : Converter Rat} (ord : MapOrder Rat) (rs : List (ScaledRecipe Rat))
+    (m m' : IngredientList Rat) (h : addRecipes ord c m rs = some m') (name : Str) :
+    (m'.get? name).isSome = true ↔
+      (m.get? name).isSome = true ∨
+      ∃ r ∈ rs, ∃ i ∈ r.ingredients, i.relation.isDefinition = true ∧
+        i.modifiers.shouldBeListed = true ∧ i.displayName = name :=
+  audit_addRecipes_names ord rs m m' h (fun r a b hab nm => C10_listed_names ord r a b hab nm) name
+
+/-- `Cookware::group_amounts` (the cookware mirror of `C10_group_conserves`): with the
+    `referenced_from` indices in range neither the index nor the `expect` panic is reached, and the
+    grouped value holds exactly the amount of the item and those of its references — numeric total (both
+    ends) and texts. -/
+theorem C10_cookware_group_conserves (all : List (Cookware (Value Rat))) (i : Cookware (Value Rat))
+    (hin : ∀ j ∈ i.relation.referencedFrom, j < all.length) :
+    ∃ g, groupAmounts all i = some g ∧
+      sumBy (vEnd false) g = sumBy (vEnd false) (i.quantity.toList ++ amountsAt all i.relation.referencedFrom) ∧
+      sumBy (vEnd true) g = sumBy (vEnd true) (i.quantity.toList ++ amountsAt all i.relation.referencedFrom) ∧
+      (valueTexts g).Perm (valueTexts (i.quantity.toList ++ amountsAt all i.relation.referencedFrom)) := by
+  obtain ⟨g, hg, h1, h2, h3⟩ :=
+    C10_cookware_conserves (i.quantity.toList ++ amountsAt all i.relation.referencedFrom)
+  refine ⟨g, ?_, h1, h2, h3⟩
+  unfold groupAmounts
+  rw [audit_allAmounts_inRange hin]
+  exact hg
+
+/-- `GroupedValue::merge`: the `expect` never fires and the result holds what both held. -/
+theorem C10_cookware_merge_conserves (g other : List (Value Rat)) :
+    ∃ r, groupedValueMerge g other = some r ∧
+      sumBy (vEnd false) r = sumBy (vEnd false) (g ++ other) ∧
+      sumBy (vEnd true) r = sumBy (vEnd true) (g ++ other) ∧
+      (valueTexts r).Perm (valueTexts (g ++ other)) := by
+  obtain ⟨r, hr⟩ := groupedValueAddAll_some other g
+  have h : ∀ w, VAdditive w → sumBy w r = sumBy w (g ++ other) := by
+    intro w hw
+    rw [groupedValueAddAll_sum hw other hr, sumBy_append]
+  exact ⟨r, hr, h _ (vEnd_additive false), h _ (vEnd_additive true),
+    valueTexts_perm (fun t => h _ (vText_additive t))⟩
+
+/-- **From recipes to the aisles, in one statement.**  A list built from any sequence of recipes (reference
+    indices in range) and split by ANY aisle configuration: no panic, and what is found under
+    (category, common name) is exactly — per class total, both ends, and texts — what the recipes' own
+    tables say: the quantities of every listed definition whose display name the aisle file sends there,
+    with those of its references (`selRecipeQuantities`); what is found under a name of `other` is the
+    same for the listed definitions displayed under that name which the aisle file does not know.  The
+    intermediate list does not occur on the right-hand side. -/
+theorem C10_shopping_list_conserves {c : Converter Rat} (hc : c.Sound) (ord : MapOrder Rat)
+    (hord : ord.IsPerm) (aisle : Aisle.Conf) (rs : List (ScaledRecipe Rat))
+    (hr : ∀ r ∈ rs, RefsInRange r.ingredients) (cls : QClass) (hlin : LinearClass c cls) :
+    ∃ l, addRecipes ord c [] rs = some l ∧
+      (∀ cat common, Holds c cls (categoryQuantities ord (categorize ord aisle l) cat common)
+        (rs.flatMap (selRecipeQuantities (fun n => decide (sentTo aisle n cat common))))) ∧
+      (∀ name, Holds c cls (entryQuantities ord (categorize ord aisle l).other name)
+        (rs.flatMap (selRecipeQuantities (fun n => decide (Aisle.lookup aisle n = none ∧ n = name))))) := by
+  obtain ⟨l, hl⟩ := addRecipes_total (c := c) ord rs [] hr
+  have hnd := C10_list_names_distinct ord rs l hl
+  obtain ⟨h1, h2⟩ := C10_categorize_conserves hc ord hord aisle l hnd cls hlin
+  refine ⟨l, hl, fun cat common => (h1 cat common).trans ?_, fun name => (h2 name).trans ?_⟩
+  · apply holds_of_weights hc hlin
+    intro w hw
+    have key := audit_selW_addRecipes hw.additive hw.fitInvariant
+      (fun n => decide (sentTo aisle n cat common)) ord hord rs [] l hl
+    have e1 : sumBy (fun e : Str × GroupedQuantity Rat =>
+        if sentTo aisle e.1 cat common then GroupedQuantity.gsum w e.2 else 0) l =
+        selW w (fun n => decide (sentTo aisle n cat common)) l := by
+      unfold selW; apply sumBy_congr; intro e _; simp
+    rw [sumBy_sentQuantities w ord hord, e1, key, sumBy_flatMap]
+    simp only [selW, sumBy_nil]
+    rw [sumBy_congr rs (fun r _ => (audit_sumBy_selRecipeQuantities w _ r).symm)]
+    grind
+  · apply holds_of_weights hc hlin
+    intro w hw
+    have key := audit_selW_addRecipes hw.additive hw.fitInvariant
+      (fun n => decide (Aisle.lookup aisle n = none ∧ n = name)) ord hord rs [] l hl
+    have e1 : sumBy (fun e : Str × GroupedQuantity Rat =>
+        if Aisle.lookup aisle e.1 = none ∧ e.1 = name then GroupedQuantity.gsum w e.2 else 0) l =
+        selW w (fun n => decide (Aisle.lookup aisle n = none ∧ n = name)) l := by
+      unfold selW; apply sumBy_congr; intro e _; simp
+    rw [sumBy_unsentQuantities w ord hord, e1, key, sumBy_flatMap]
+    simp only [selW, sumBy_nil]
+    rw [sumBy_congr rs (fun r _ => (audit_sumBy_selRecipeQuantities w _ r).symm)]
+    grind
+
+/-! ## every recipe the parser returns (link to C06, Lemmas/ParsedScaled.lean)
+
+  `ParsedScaled r`: `r` is what `parse` returns for SOME environment and input — valid or alongside any
+  diagnostics — scaled by `scale(factor)` with any factor and converter, or by `default_scale`.  For
+  these recipes the hypotheses `RefsConsistent` / `RefsInRange` of the theorems above are theorems
+  (C06's invariant, carried through scaling), so "for all valid recipes and sequences of recipes" holds
+  without an assumption on the recipe. -/
+
+/-- the reference tables of every parsed and scaled recipe are consistent and in range -/
+theorem C10_parsed_recipe_consistent {r : ScaledRecipe Rat} (h : ParsedScaled r) :
+    RefsConsistent r.ingredients ∧ RefsInRange r.ingredients :=
+  ⟨h.refsConsistent, h.refsConsistent.inRange⟩
+
+/-- `C10_group_counts_once` for every parsed and scaled recipe: `all_quantities` of a definition never
+    hits the index panic and yields its own quantity and those of its references, each once; nothing
+    foreign is counted; every ingredient that stands for an ingredient is counted under exactly one
+    definition. -/
+theorem C10_parsed_group_counts_once {r : ScaledRecipe Rat} (h : ParsedScaled r) :
+    (∀ d i, r.ingredients[d]? = some i → i.relation.isDefinition = true →
+      allQuantities r.ingredients i = some (quantitiesAt r.ingredients (groupIndices i d)) ∧
+      (groupIndices i d).Nodup ∧
+      ∀ j ∈ groupIndices i d, ∃ ij, r.ingredients[j]? = some ij ∧ ij.owned = true) ∧
+    (∀ j ij, r.ingredients[j]? = some ij → ij.owned = true →
+      ∃ d i, r.ingredients[d]? = some i ∧ i.relation.isDefinition = true ∧ j ∈ groupIndices i d ∧
+        ∀ d' i', r.ingredients[d']? = some i' → i'.relation.isDefinition = true → j ∈ groupIndices i' d' →
+          d' = d) :=
+  C10_group_counts_once h.refsConsistent
+
+/-- `C10_group_conserves` for every ingredient of every parsed and scaled recipe -/
+theorem C10_parsed_group_conserves {c : Converter Rat} (hc : c.Sound) (ord : MapOrder Rat) (hord : ord.IsPerm)
+    {r : ScaledRecipe Rat} (h : ParsedScaled r) (i : Ingredient (Value Rat)) (hi : i ∈ r.ingredients)
+    (cls : QClass) (hlin : LinearClass c cls) :
+    ∃ g, groupQuantities c r.ingredients i = some g ∧
+      Holds c cls (g.iter ord)
+        (i.quantity.toList ++ quantitiesAt r.ingredients i.relation.relation.referencedFrom) :=
+  C10_group_conserves hc ord hord r.ingredients i (h.refsConsistent.inRange i hi) cls hlin
+
+/-- `C10_list_conserves` for every sequence of parsed and scaled recipes: no panic, and each entry holds
+    what it held plus the quantities of the listed definitions displayed under its name, with their
+    references. -/
+theorem C10_parsed_list_conserves {c : Converter Rat} (hc : c.Sound) (ord : MapOrder Rat) (hord : ord.IsPerm)
+    (rs : List (ScaledRecipe Rat)) (hr : ∀ r ∈ rs, ParsedScaled r)
+    (m : IngredientList Rat) (cls : QClass) (hlin : LinearClass c cls) :
+    ∃ m', addRecipes ord c m rs = some m' ∧
+      ∀ name, Holds c cls (entryQuantities ord m' name)
+        (entryQuantities ord m name ++ rs.flatMap (recipeQuantities name)) :=
+  C10_list_conserves hc ord hord rs (fun r h => (hr r h).refsConsistent.inRange) m cls hlin
+
+/-- `C10_shopping_list_conserves` for every sequence of parsed and scaled recipes and every aisle
+    configuration (in particular every one `aisle::parse` returns) -/
+theorem C10_parsed_shopping_list_conserves {c : Converter Rat} (hc : c.Sound) (ord : MapOrder Rat)
+    (hord : ord.IsPerm) (aisle : Aisle.Conf) (rs : List (ScaledRecipe Rat))
+    (hr : ∀ r ∈ rs, ParsedScaled r) (cls : QClass) (hlin : LinearClass c cls) :
+    ∃ l, addRecipes ord c [] rs = some l ∧
+      (∀ cat common, Holds c cls (categoryQuantities ord (categorize ord aisle l) cat common)
+        (rs.flatMap (selRecipeQuantities (fun n => decide (sentTo aisle n cat common))))) ∧
+      (∀ name, Holds c cls (entryQuantities ord (categorize ord aisle l).other name)
+        (rs.flatMap (selRecipeQuantities (fun n => decide (Aisle.lookup aisle n = none ∧ n = name))))) :=
+  C10_shopping_list_conserves hc ord hord aisle rs (fun r h => (hr r h).refsConsistent.inRange) cls hlin
+
 /-! ## witnesses and non-vacuity -/
 
 namespace C10Witness
@@ -517,5 +717,35 @@ example : (Converter.bundled Rat).Sound ∧ LinearClass (Converter.bundled Rat) 
     C10Witness.idOrd.IsPerm ∧ C10Witness.revOrd.IsPerm ∧ RefsConsistent C10Witness.refRecipe :=
   ⟨C09_bundled_sound, C10_bundled_linear _ (by decide), C10Witness.idOrd_isPerm,
    C10Witness.revOrd_isPerm, C10Witness.refRecipe_consistent⟩
+
+open C10Witness in
+/-- `C10_shopping_list_conserves` speaks about something: the right-hand side for the tuna recipe and the
+    aisle file `[canned]⏎tuna|chicken of the sea` is 3000 g under (canned, tuna), nothing in `other`; and
+    merging two groups in either direction gives 1200 g -/
+example : total cB (.known .mass)
+      ([tunaRecipe].flatMap (selRecipeQuantities (fun n => decide (sentTo aisleConf n canned tuna)))) = (3000, 3000) ∧
+    [tunaRecipe].flatMap (selRecipeQuantities (fun n => decide (Aisle.lookup aisleConf n = none ∧ n = tuna))) = [] ∧
+    total cB (.known .mass) ((merge idOrd cB (addAll cB empty [num 1 (some kg)]) (addAll cB empty [num 200 (some gram)])).iter idOrd)
+      = (1200, 1200) ∧
+    total cB (.known .mass) ((merge idOrd cB (addAll cB empty [num 200 (some gram)]) (addAll cB empty [num 1 (some kg)])).iter revOrd)
+      = (1200, 1200) := by
+  decide +kernel
+
+/-- `ParsedScaled` is inhabited (the analysis has an output, here on the empty input; `lexFrom` is
+    defined by well-founded recursion, so inputs with content do not reduce by `rfl` — the content of the
+    hypothesis is exercised by `refRecipe_consistent` above) -/
+example : ∃ r, ParsedScaled r := by
+  let cs : CharSpec :=
+    ⟨fun c => c == ' ', fun _ => false, fun c => c == 'x', fun c => c == ' ' || c == '\n', fun c => c == 'x'⟩
+  let env : Env := ⟨cs, ⟨Gen.EXT_MODES⟩, fun _ => none, fun _ _ => .ok, fun c => [c], 0⟩
+  have hsome : (parseRecipe (α := Rat) env []).output.isSome = true := by
+    have hl : ∀ off, lexFrom cs off [] = [] := by intro off; unfold lexFrom; rfl
+    have hf : parseFrontmatter cs [] = none := by rfl
+    unfold parseRecipe pullEvents
+    simp only [env, hf, lex, hl]
+    rfl
+  cases hc : (parseRecipe (α := Rat) env []).output with
+  | none => rw [hc] at hsome; cases hsome
+  | some c => exact ⟨_, env, [], c, hc, Or.inr rfl⟩
 
 end Cook
